@@ -24,13 +24,13 @@ theorem c12_callback_once (c : Cfg) (es : List Ev) (s : St) (h : runEv c {} es =
   simp only [Nat.zero_add] at h2
   exact ⟨h1, by omega, h2⟩
 
-/-- … after the last item: at the moment of the `callback` event the stream is dropped (so cancelled: a close is under
-    way), no item future is in flight, and every event accepted before the close call is finished — for EVERY
+/-- … after the last item: at the moment of the `callback` event the stream is dropped (so the streams were told to end: a close is under
+    way or an end signal was given), no item future is in flight, and every event accepted before the close call is finished — for EVERY
     configuration, including `futures ∧ limit > 1` (compare C06 / D6: `close` may return earlier, the callback may not) -/
 theorem c12_callback_once_after_last (c : Cfg) (es₁ es₂ : List Ev) (s : St)
     (h : runEv c {} (es₁ ++ [.callback] ++ es₂) = some s) :
     s.callbacks ≤ 1 ∧
-    ∃ s1, runEv c {} es₁ = some s1 ∧ s1.dropped = true ∧ s1.cancelled = true ∧ s1.closing = true ∧
+    ∃ s1, runEv c {} es₁ = some s1 ∧ s1.dropped = true ∧ s1.cancelled = true ∧ (s1.closing = true ∨ s1.signalled = true) ∧
       s1.inflight = [] ∧ s1.callbacks = 0 ∧ ∀ i ∈ s1.beforeClose, i ∈ s1.finished := by
   refine ⟨(inv_run h).cb, ?_⟩
   obtain ⟨⟨s1, h1, hd, hi, hcb⟩, -, -⟩ := run_callback_split (by simpa using h)
